@@ -218,9 +218,9 @@ func mergeAuthorizerHealthCheckEvents() *eventsMergerImpl[dbs.DbHealthCheck] {
 }
 
 func mergeAuthorizerBurnEvents() *eventsMergerImpl[state.Burn] {
-	return newEventsMerger[state.Burn](TagAuthorizerBurn, withUniqueEventOverwrite())
+	return newEventsMerger[state.Burn](TagAuthorizerBurn)
 }
 
 func mergeAddBridgeMintEvents() *eventsMergerImpl[BridgeMint] {
-	return newEventsMerger[BridgeMint](TagAddBridgeMint, withUniqueEventOverwrite())
+	return newEventsMerger[BridgeMint](TagAddBridgeMint)
 }
